@@ -7,7 +7,7 @@ import (
 	clipper "github.com/bolom009/go-clipper2"
 )
 
-// The C18 harness bodies: a 22-call alphabet over shared, read-only inputs and
+// The C18 harness bodies: a 23-call alphabet over shared, read-only inputs and
 // distinct engine objects. The same bodies run (a) under the cooperative
 // scheduler of the schedule explorer and (b) free-running under the race detector.
 
@@ -39,6 +39,10 @@ var c18Calls = []struct {
 	}},
 	{"RectClipPaths64", func() string { return fmt.Sprint(clipper.RectClipPaths64(clipper.NewRect64(15, 5, 50, 35), c18S)) }},
 	{"RectClipLinesPaths64", func() string { return fmt.Sprint(clipper.RectClipLinesPaths64(clipper.NewRect64(15, 5, 50, 35), c18L)) }},
+	// a second and a third rectangle: anything remembered per rectangle between calls is shared state
+	{"RectClipPaths64(other rectangle)+RectClipLinesPathsD(third rectangle)", func() string {
+		return fmt.Sprint(clipper.RectClipPaths64(clipper.NewRect64(8, -5, 42, 30), c18S), clipper.RectClipLinesPathsD(clipper.NewRectD(20, 12, 58, 44), clipper.Paths64ToPathsD(c18L), 1))
+	}},
 	{"MinkowskiSum64", func() string { return fmt.Sprint(clipper.MinkowskiSum64(c18C[1], c18S[1], true)) }},
 	{"MinkowskiDiff64", func() string { return fmt.Sprint(clipper.MinkowskiDiff64(c18C[1], c18S[1], true)) }},
 	{"MinkowskiDiff64(open path)+MinkowskiSumD", func() string {
